@@ -46,7 +46,12 @@ def sh(cmd, timeout=600, cwd=None, env=None, inp=None):
         return 124, out + '\n[timeout after %ss]' % timeout
 
 
+_GEN_WRITES = {}        # generated Coq sources written by this process: path -> text
+
+
 def write_if_changed(path, text):
+    if os.path.abspath(path).startswith(os.path.join(COQ, 'gen') + os.sep):
+        _GEN_WRITES[os.path.abspath(path)] = text
     try:
         if open(path).read() == text:
             return False
@@ -136,6 +141,17 @@ class build_lock(object):
 def coq_make(targets, timeout=1500):
     """make the given .vo targets (paths relative to coq/). Returns (ok, log)."""
     with build_lock():
+        # a check that regenerated coq/gen/*.v from the tree under test builds
+        # against exactly that text, even if a concurrent check of another tree
+        # rewrote the file in between
+        for path, text in list(_GEN_WRITES.items()):
+            try:
+                same = open(path).read() == text
+            except OSError:
+                same = False
+            if not same:
+                with open(path, 'w') as f:
+                    f.write(text)
         coq_project()
         rc, out = sh(['make', '-j%d' % NPROC, '-k'] + list(targets), cwd=COQ, timeout=timeout)
     return rc == 0, out
